@@ -409,6 +409,10 @@ class CompositeFrontend(ConstrainedFrontend):
         if self.satisfiable(extra_constraints=extra_constraints):
             return ()
 
+        if self._unsat:
+            # a concretely false constraint was added; it lives in no child
+            return [false()]
+
         cores = []
 
         for solver in self._solver_list:
